@@ -164,9 +164,9 @@ def run_endless(params, ch):
         s.finish()
 
 
-def stalls():
+def stalls(tier='quick'):
     out = [{'kind': 'silence'}, {'kind': 'eof'}, {'kind': 'other'}, {'kind': 'unexpected'}]
-    out += [{'kind': 'trickle', 'j': j} for j in (1, 23, 24, -1)]
+    out += [{'kind': 'trickle', 'j': j} for j in ((1, 23, 24, -1) if tier == 'quick' else (1, 2, 12, 23, 24, 25, -2, -1))]
     return out
 
 
@@ -184,7 +184,7 @@ def parts(tier):
         for op in OPS:
             n = frames_of(op, twin)[1]
             for k in range(n):
-                for stl in stalls():
+                for stl in stalls(tier):
                     for T in Ts:
                         for R in Rs:
                             for total in (totals if op in HAS_TOTAL else (None,)):
@@ -197,7 +197,7 @@ def parts(tier):
         for op in CONNECTS:
             n = frames_of(op, twin)[1]
             for k in range(n):
-                for stl in stalls():
+                for stl in stalls(tier):
                     for T in Ts:
                         for R in Rs:
                             for auth in (0.05, 1):
